@@ -170,6 +170,51 @@ def case(args):
     return out
 
 
+def through_case(args):
+    """A function returns, unchanged, the partition a memoized call gave it (computed just now, served by the cache, or read
+    from the store): what it returned and what reads back must both be the overlay of the whole chain."""
+    from ..fixtures import c17fx as fx
+
+    kind, keysets, kinds, prov_top = args
+    L = len(keysets) - 1
+    specs = [{"keys": ks, "kind": kd} for ks, kd in zip(keysets, kinds)]
+    top = scratch_dir("c17t")
+    out = {"evaluations": 1, "states": 1, "transitions": 3, "traces": 1, "violations": [], "outcomes": ["through|%s|%s|%s|%s" % (kind, keysets, kinds, prov_top)]}
+    try:
+        root = os.path.join(top, "s")
+        use(mk(kind, root), top)
+        want = {}
+        for lvl, ks in enumerate(keysets):
+            for k in ks:
+                want[k] = fx.value(lvl, k)
+        bad = None
+        try:
+            if prov_top != "fresh":
+                fx.part(L, specs)
+                if prov_top == "disk" and kind != "mem":
+                    use(mk(kind, root), top)
+            bad = check_partition(fx.through(L, specs), want, "returned")
+            if bad is None:
+                if kind != "mem":
+                    use(mk(kind, root), top)
+                audit.bodies_reset()
+                again = fx.through(L, specs)
+                if [b for b in audit.bodies() if b[0] == "through"]:
+                    bad = ("not-stored", "second call ran the body again: the handed-on partition was not stored")
+                else:
+                    bad = check_partition(again, want, "read-back")
+        except Exception as e:
+            import traceback
+
+            bad = ("raised", "raised %r\n%s" % (e, traceback.format_exc(limit=4)[-300:]))
+        if bad:
+            out["violations"].append(("%s|handed-on-partition|chain:%d|inner:%s|%s" % (kind, L, prov_top, bad[0]),
+                                      bad[1] + "\nbackend=%s key sets=%s staging=%s inner call: %s" % (kind, keysets, kinds, prov_top), {"through": [kind, keysets, kinds, prov_top]}))
+    finally:
+        rm(top)
+    return out
+
+
 def extend_case(args):
     from ..fixtures import c17fx as fx
 
@@ -245,8 +290,18 @@ def run(ctx):
     ctx.selfcheck("one case gives identical observations twice", a["violations"] == b["violations"])
     ctx.merge(pmap(case, tasks, chunksize=8))
     # (with a cache-less store a memoized level 0 comes back as a read-only stored partition: nothing to extend)
+    tt = []
+    for L in (0, 1, 2):
+        for keysets in itertools.product(KEYSETS[1:4], repeat=L + 1):
+            for kinds in (("mem",) * (L + 1), ("disk",) * (L + 1)):
+                for kind in ("fs", "fsc", "mem"):
+                    for prov_top in {"fs": ("fresh", "disk"), "fsc": ("fresh", "disk", "cache"), "mem": ("fresh", "cache")}[kind]:
+                        tt.append((kind, [list(k) for k in keysets], list(kinds), prov_top))
+    ctx.merge(pmap(through_case, tt, chunksize=4))
+    ctx.extra["handed_on_cases"] = len(tt)
     et = [(kind, ks, pre) for kind in ("fs", "fsc", "mem") for ks in KEYSETS for pre in (False, True) if not (pre and kind == "fs")]
     ctx.merge(pmap(extend_case, et, chunksize=2))
+    ctx.rule += " Plus: a function handing on, unchanged, the partition of a memoized call (chains 0..2, inner call fresh / from disk / from the cache)."
     ctx.rule += " Plus: a function that takes the on-disk partition returned by a memoized call, replaces an entry, adds one and returns it."
     # two threads storing partitions at the same time: each must read back with its own keys and values
     cs = [("fs|cold|two-partitions", "fs", "cold", [[("pa", 1)], [("pb", 1)]]),
@@ -263,6 +318,12 @@ def run(ctx):
 def replay(ctx, art):
     if "scn" in art["artefact"]:
         return c09.replay_concurrent("C17", art)
+    if "through" in art["artefact"]:
+        r = through_case(tuple(art["artefact"]["through"]))
+        for v in r["violations"]:
+            print(v[0], "\n", v[1])
+        print("REPLAY property=C17 result=%s" % bool(r["violations"]))
+        return 1 if r["violations"] else 0
     if "extend" in art["artefact"]:
         r = extend_case(tuple(art["artefact"]["extend"]))
         for v in r["violations"]:
